@@ -20,6 +20,14 @@ def check(pid, technique, text, note, ref):
 
 exec(open(os.path.join(HERE, "tools", "manifest_table.py")).read())
 
+ENGINE_OF = {}
+for _p in "C02 C03 C04 C05 C06 C07 C08 C09 C10 C14 C17 C18 C21 C23 C24".split():
+    ENGINE_OF[_p] = "term-graph explorer"
+for _p in "C12 C13 C20 C27".split():
+    ENGINE_OF[_p] = "history explorer"
+for _p in "C01 C11 C15 C16 C19 C22 C25 C26 C28 C29".split():
+    ENGINE_OF[_p] = "product enumerator"
+
 checks = []
 for pid in ALL:
     if pid not in CHECKS:
@@ -32,7 +40,7 @@ for pid in ALL:
             "thorough_cmd": f"./check {pid} --tier thorough",
             "evidence_file": f"/verif/evidence/{pid}.json",
             "replay_cmd_template": f"./check {pid} --replay {{path}}",
-            "engine": "term-graph explorer" if "history" not in technique else "history explorer",
+            "engine": ENGINE_OF[pid],
             "level_claimed": {"category": "model_checking", "text": text, "design_ref": ref},
             "level_note": note,
             "technique": technique,
@@ -62,9 +70,15 @@ manifest = {
         },
         {
             "name": "history explorer",
-            "path": "/verif/mc/history.py",
+            "path": "/verif/mc/props (c12.py, c13_hist.py, c20.py, c27.py + c27_events.py): one explorer per driver, sharing mc/runner.py (fork pool, evidence, replay)",
             "serves_properties": [c["property_id"] for c in checks if c["engine"] == "history explorer"],
             "kind_free_text": "exhaustive enumeration of event histories on the real code in forked process images",
+        },
+        {
+            "name": "product enumerator",
+            "path": "/verif/mc/props (c01.py, c11.py, c15.py, c16.py, c19.py, c22.py, c25.py, c26.py, c28.py, c29.py)",
+            "serves_properties": [c["property_id"] for c in checks if c["engine"] == "product enumerator"],
+            "kind_free_text": "complete enumeration of a finite catalogue x option/mutation product (all pairs / triples where the property is relational) executed on the real code and compared with the reference model",
         },
         {
             "name": "reference model",
